@@ -652,7 +652,7 @@ def generate_layer_data_type_map(
         if weight_quantizer.is_po2:
           weight_quantizer.update_inference_values(weights[0])
 
-        if bias_quantizer.is_po2:
+        if layer.use_bias and bias_quantizer.is_po2:
           bias_quantizer.update_inference_values(weights[1])
 
       multiplier_factory = quantized_operators.MultiplierFactory()
